@@ -63,6 +63,7 @@ def handleLine (line : String) : String :=
     | "c12e" => C12.handleEmfile args obs
     | "c13" => C12.handleShutdown args obs
     | "c13e" => C12.handleShutdownEmfile args obs
+    | "c08s" => C12.handleStall args obs
     | "c19s" => C19.handleSet args obs
     | "c19w" => C19.handleWriter args obs
     | "c20e" => C20.handleError args obs
